@@ -98,7 +98,8 @@ Theorem C01_compress_then_decompress_safe :
 Proof. exact compress_then_decompress_safe. Qed.
 Print Assumptions C01_compress_then_decompress_safe.
 
-(* Not proved (no Coq model of lz4hc.c): the same statement for LZ4_compress_HC and friends. *)
+(* Kept visible: the same statement for LZ4_compress_HC and friends at EVERY level.  Proved below for levels 1-2
+   (LZ4MID, C01_hc_mid_... theorems) and 3-9 (hash chain, C01_hc_chain_... theorems); NOT proved for levels 10-12 (optimal parser: no Coq model). *)
 Definition C01_hc_full_statement : Prop :=
   forall (compress_HC : mem -> Z -> Z -> Z -> Z * list byte) (src : mem) srcSize cap level,
     src_ok src -> let '(r, out) := compress_HC src srcSize cap level in
@@ -152,4 +153,66 @@ Example C01_hc_mid_nonvacuous :
   let l := concat (repeat [97; 98; 99; 100] 13) ++ [1; 2; 3; 4; 5; 6; 7; 8] in
   let r := compress_HC_mid (mem_of_list 0 l) 60 100 in
   0 < hr_ret r < 30 /\ strict_valid [] (hr_out r) = Some l.
+Proof. vm_compute. repeat split; reflexivity. Qed.
+
+(* 7. HC levels 3 to 9 (LZ4HC_compress_hashChain: hash chains, LZ4HC_InsertAndGetWiderMatch with pattern analysis,
+      the _Search2/_Search3 overlap resolution).  Model: Model.HcChain / Model.HcChainApi, tied to lz4hc.c by the
+      `chain` correspondence (bytes, hashTable, chainTable, nextToUpdate, end index, dirty flag, favorDecSpeed
+      after every call, and the search function called directly).
+      Any history of LZ4_compress_HC_extStateHC_fastReset / LZ4_compress_HC_destSize / LZ4_favorDecompressionSpeed
+      calls on ONE LZ4_streamHC_t (any inputs, sizes, capacities, levels 3..9 mixed): every positive result of a
+      one-shot call is the size of a block that the specification decodes, strictly, to exactly the input, and in
+      limitedOutput mode nothing was written beyond the capacity; every positive destSize result decodes to
+      exactly the consumed prefix and nothing was written beyond the target size. *)
+From LZ4V Require Model.HcChain Proofs.HcChainSearch Proofs.HcChainSound Proofs.HcChainCap Proofs.HcChainParser.
+From LZ4V Require Import Model.HcChainApi Proofs.HcChainApiSound.
+
+Theorem C01_hc_chain_history :
+  forall calls c,
+    cc_ok c -> Forall hcall_valid calls ->
+    Forall (fun ka => hcall_post (fst ka) (snd ka)) (run_chain_history c calls).
+Proof. exact chain_history_sound. Qed.
+Print Assumptions C01_hc_chain_history.
+
+Theorem C01_hc_chain_fresh_state : cc_ok cc_init.
+Proof. exact cc_ok_init. Qed.
+Print Assumptions C01_hc_chain_fresh_state.
+
+(* the parser itself, for ANY hashTable / chainTable contents such that hash entries are indices below the
+   block, chain entries are 16-bit values and lowLimit >= 64 KB (prefix and external dictionary segment in the
+   index space included): the result is the encoding of a factorisation of the consumed input (RSpec), within
+   the capacity contract and never out of fuel (RCap) *)
+Theorem C01_hc_chain_parser :
+  forall vrd lim prefixIdx dictIdx s0 srcSize maxOut nb,
+    (forall a, 0 <= vrd a < 256) ->
+    65536 <= dictIdx /\ dictIdx <= prefixIdx /\ prefixIdx <= s0 /\ s0 + srcSize < M32 - 65536 ->
+    0 <= srcSize -> 0 <= maxOut -> (lim = FillOutput -> 1 <= maxOut) ->
+    forall t, HcChainSearch.TB t s0 ->
+    HcChainSound.RSpec vrd lim dictIdx s0 srcSize (HcChain.hc_compress vrd prefixIdx dictIdx lim s0 srcSize maxOut nb t) /\
+    HcChainCap.RCap lim srcSize maxOut (HcChain.hc_compress vrd prefixIdx dictIdx lim s0 srcSize maxOut nb t).
+Proof. exact HcChainParser.hc_compress_ok. Qed.
+Print Assumptions C01_hc_chain_parser.
+
+(* the match search (LZ4HC_InsertAndGetWiderMatch, noDictCtx, chainSwap = 0, favorCompressionRatio), pattern
+   analysis on or off: never out of fuel, and a result longer than `longest` is a match whose bytes are equal *)
+Theorem C01_hc_chain_search :
+  forall vrd, (forall a, 0 <= vrd a < 256) ->
+  forall prefixIdx dictIdx, 65536 <= dictIdx /\ dictIdx <= prefixIdx ->
+  forall t B q iLow iHigh longest0 nb pa,
+    HcChainSearch.TB t B -> B <= q -> prefixIdx <= iLow -> iLow <= q -> q + 4 <= iHigh -> iHigh < M32 - 65536 -> 3 <= longest0 ->
+    exists m t', HcChain.insertAndGetWiderMatch vrd prefixIdx dictIdx t q iLow iHigh longest0 nb pa false false = Some (m, t') /\
+      HcChainSearch.TB t' q /\ HcChain.t_ntu t' = q /\ longest0 <= HcChain.hm_len m /\
+      (longest0 < HcChain.hm_len m -> HcChainSearch.mvalid vrd dictIdx iLow iHigh q m).
+Proof. exact HcChainSearch.wider_sound. Qed.
+Print Assumptions C01_hc_chain_search.
+
+(* Non-vacuity: LZ4_compress_HC(level 9, pattern analysis on) of 13 x "abcd" + 8 literals, evaluated in the model;
+   level 3 of 44 equal bytes + 16 literals *)
+Example C01_hc_chain_nonvacuous :
+  let l := concat (repeat [97; 98; 99; 100] 13) ++ [1; 2; 3; 4; 5; 6; 7; 8] in
+  let r := compress_HC_chain (mem_of_list 0 l) 60 100 9 in
+  let l2 := repeat 7 44 ++ [1; 2; 3; 4; 5; 6; 7; 8; 9; 10; 11; 12; 13; 14; 15; 16] in
+  let r2 := compress_HC_chain (mem_of_list 0 l2) 60 100 3 in
+  (0 < cr_ret r < 30 /\ strict_valid [] (cr_out r) = Some l) /\
+  (0 < cr_ret r2 < 30 /\ strict_valid [] (cr_out r2) = Some l2) /\ chain_level 9 = true /\ chain_level 3 = true.
 Proof. vm_compute. repeat split; reflexivity. Qed.
